@@ -761,6 +761,54 @@ fn oracle_levels(ctx: &mut Ctx, case: &str, con: &Consist, con0: &Consist, s: &T
 }
 
 
+/// C11 with the third locomotive type: the consist-level fuel / battery getters are the sums over ALL units that have an
+/// engine / a battery — hybrids included (implementation only: `Consist.lean` models conventional and battery units).
+/// Units are stepped on their own first, so that each carries non-zero fuel / battery energy, then coupled.
+fn hybrid_rollup_case(ctx: &mut Ctx, r: &mut Rng) {
+    let drive = |r: &mut Rng, l: &mut Locomotive| {
+        for _ in 0..r.usize(2, 8) {
+            let dt = uc::S * *r.pick(&[0.5, 1.0, 2.0]);
+            l.set_pwr_aux(Some(true));
+            if guard(|| l.set_cur_pwr_max_out(None, dt)).map(|x| x.is_ok()) != Some(true) { break; }
+            let req = l.state.pwr_out_max * *r.pick(&[0.1, 0.3, 0.6]);
+            if guard(|| l.solve_energy_consumption(req, dt, Some(true))).map(|x| x.is_ok()) != Some(true) { break; }
+            LocoTrait::step(l);
+        }
+    };
+    let mut units: Vec<Locomotive> = vec![];
+    let n = r.usize(2, 5);
+    for k in 0..n {
+        let mut l = match if k == 0 { 2 } else { r.below(3) } { 0 => gen_loco(r, false), 1 => gen_loco(r, true), _ => crate::b_pt::gen_hloco(r) };
+        drive(r, &mut l);
+        units.push(l);
+    }
+    // the hybrid is not always the first unit
+    let k = r.usize(0, n - 1);
+    units.swap(0, k);
+    let pdct = if r.chance(0.5) { PowerDistributionControlType::Proportional(Proportional) } else { PowerDistributionControlType::RESGreedy(RESGreedy) };
+    let con = Consist::new(units.clone(), None, pdct);
+    let mut ef = 0.0;
+    let mut er = 0.0;
+    let mut hyb_fuel = 0.0;
+    for l in &units {
+        match &l.loco_type {
+            PowertrainType::ConventionalLoco(c) => ef += c.fc.state.energy_fuel.value,
+            PowertrainType::BatteryElectricLoco(c) => er += c.res.state.energy_out_chemical.value,
+            PowertrainType::HybridLoco(h) => { ef += h.fc.state.energy_fuel.value; hyb_fuel += h.fc.state.energy_fuel.value; er += h.res.state.energy_out_chemical.value; }
+            _ => {}
+        }
+    }
+    if hyb_fuel > 0.0 { ctx.count("train.levels.consist_with_hybrid_that_burnt_fuel"); }
+    let es = ef.abs().max(er.abs()).max(1.0);
+    let got = guard(|| (con.get_energy_fuel().value, con.get_net_energy_res().value));
+    ctx.checked("C11", "fuel_and_battery_getters_count_every_unit");
+    let ok = matches!(got, Some((a, bb)) if close(a, ef, es) && close(bb, er, es));
+    if !ok {
+        ctx.fail("C11", "fuel_and_battery_getters_count_every_unit", "hybrid_rollup", format!("Consist::get_energy_fuel / get_net_energy_res = {:?} but the units' engines burnt {} J and their batteries delivered {} J (hybrids: {} J of fuel)", got, ef, er, hyb_fuel),
+            json!({"kind": "hybrid_rollup", "units": units.iter().map(|l| serde_json::to_value(l).unwrap()).collect::<Vec<_>>()}));
+    }
+}
+
 /// one `bp_recalc` op: the real BrakingPoints::recalc result for the current path / resistance / brake
 fn emit_recalc(ctx: &mut Ctx, sim: &SpeedLimitTrainSim) {
     let t = &sim.path_tpc;
@@ -1402,4 +1450,5 @@ pub fn run(ctx: &mut Ctx, r: &mut Rng, tier: &str) {
     for _ in 0..nss { let mut rr = r.fork(); set_speed_case(ctx, &mut rr, steps); }
     for _ in 0..nsl { let mut rr = r.fork(); speed_limit_case(ctx, &mut rr, slsteps); }
     for _ in 0..(if tier == "thorough" { 80 } else { 10 }) { let mut rr = r.fork(); timed_path_case(ctx, &mut rr); }
+    for _ in 0..(if tier == "thorough" { 200 } else { 20 }) { let mut rr = r.fork(); hybrid_rollup_case(ctx, &mut rr); }
 }
